@@ -296,6 +296,15 @@ def gen_cases(prop, u, seed, tier, probe=None):
         for (a, b) in pairs:
             if vals.get(a) is None: continue
             cs.add('xdeser %d %d %s' % (a, b, vals[a]), kind='xdeser', ti=a, tj=b, val=vals[a], family='pair')
+    elif prop == 'C17':
+        for i, t in enumerate(u.types):
+            def owns_heap(x):
+                n = type(x).__name__
+                if n == 'Phantom': return False
+                if n in ('Str', 'Seq', 'Sum'): return True     # strings, vectors / boxed slices, option / bound / control flow
+                return any(owns_heap(c) for c in x.children())
+            heap = owns_heap(t)
+            cs.add('zcc %d' % i, kind='zcc', ti=i, family='consts', heap=heap)
     elif prop == 'C05':
         from universe import Adt
         seen_defs = set()
